@@ -164,9 +164,9 @@ func corpus() []*History {
 		opDefine(1, 101),
 		opBind(1, 126, 101, base(6000), PricingArg{Kind: "N", Text: `{"price":"1` + strings.Repeat("0", 76) + `stake"}`}, 1))
 
-	// W18 (D11): a withdrawal address that is a module account is rejected; the owner's earnings
+	// W20 (D11): a withdrawal address that is a module account is rejected; the owner's earnings
 	// still reach an ordinary address, escrow and deposit account stay exactly backed.
-	add("W18-D11-blocked-withdraw-address", 0, append(rich(101), [2]int64{111, 1000}),
+	add("W20-D11-blocked-withdraw-address", 0, append(rich(101), [2]int64{111, 1000}),
 		opDefine(1, 101),
 		opBind(1, 126, 101, base(6000), price("10"), 1),
 		opCall(1018, 1, []int64{126}, 111, 1000, 2, false, 0, 0),
@@ -183,9 +183,9 @@ func corpus() []*History {
 		Op{Kind: "setwd", Owner: 101, Addr: 9004},
 		opEB(5*sec), opEB(5*sec))
 
-	// W19 (K6): a top-up whose sum with the stored deposit needs more than 255 bits panics in
+	// W21 (K6): a top-up whose sum with the stored deposit needs more than 255 bits panics in
 	// Coins.Add before the owner is asked to pay (update and enable).
-	add("W19-deposit-overflow-k6", 0, rich(101),
+	add("W21-deposit-overflow-k6", 0, rich(101),
 		opDefine(1, 101),
 		opBind(1, 126, 101, base(6000), price("10"), 1),
 		Op{Kind: "update", Svc: 1, Prov: 126, Owner: 101, Dep: CoinsArg{Kind: "B", Big: k6Huge}, Pr: PricingArg{Kind: "-"}},
